@@ -175,7 +175,7 @@ AsPaths(asn4) ==
           ELSE {<<Seg(3, LongAs(100)), Seg(2, LongAs(100))>>, <<Seg(2, LongAs(125)), Seg(1, LongAs(1))>>, <<Seg(1, LongAs(1)), Seg(2, LongAs(127))>>,
                 <<Seg(2, LongAs(62)), Seg(2, LongAs(63))>>, <<Seg(2, LongAs(63)), Seg(4, LongAs(63))>>})
 \* every well-known community the decoder names (IANA registry), plus reserved-range neighbours
-WellKnownComm == {<<65535, x>> : x \in {0, 1, 2, 3, 4, 5, 6, 666, 65281, 65282, 65283, 65284, 65285, 65535}} \cup {<<0, 0>>}
+WellKnownComm == {<<65535, x>> : x \in {0, 1, 2, 3, 4, 5, 6, 7, 8, 9, 10, 666, 65281, 65282, 65283, 65284, 65285, 65535}} \cup {<<0, 0>>}
 Comms == {<<c>> : c \in WellKnownComm \cup {<<0, 1>>, <<100, 200>>, <<65000, 65535>>, <<1, 0>>}}
          \cup {<<<<100, 200>>, <<65535, 65281>>>>, <<<<1, 1>>, <<2, 2>>, <<3, 3>>>>}
          \* the largest lists that fit a one-octet attribute length (252 octets), one less, and the first that needs two octets
